@@ -1103,7 +1103,20 @@ class CallMixin(object):
         return st, SV(None, "zip", py=tuple(args))
 
     def bi_sorted(self, st, acc, args, kwargs, node):
-        raise Undecided("sorted()")
+        """sorted(seq): a new list of the same length holding the same elements (order unspecified: A-lib)."""
+        u = self.u
+        src = self.iterable_to_seq(st, acc, args[0], node)
+        n = self.seq_len(st, src)
+        res = self.new_symbolic_seq(st, "list", src.elem, length=n)
+        rel = u.fresh("sorted", u.ElemsSort)
+        st.heap["$at"] = z3.Store(self.heap_array(st, "$at"), self.as_ref(res), rel)
+        sel = self.seq_elems(st, src)
+        j = u.fresh_int("j")
+        k = u.fresh_int("k")
+        st.assume(z3.ForAll([j], z3.Implies(z3.And(0 <= j, j < n), z3.Exists([k], z3.And(0 <= k, k < n, rel[j] == sel(k)))),
+                            patterns=[rel[j]]))
+        self.assumptions_used.add("A-lib:sorted")
+        return st, SV(res.z, "ref", cls="list", elem=src.elem)
 
     def bi_range(self, st, acc, args, kwargs, node):
         return st, SV(None, "range", py=tuple(args))
